@@ -39,8 +39,10 @@ SHAPES = {
     "onelead": dict(nt=3, nl=1, ns=3, prob=True, ens=True),
     "single": dict(nt=1, nl=1, ns=1, prob=True, ens=True),
     "miss": dict(nt=3, nl=3, ns=3, prob=True, ens=True),
+    "missfirst": dict(nt=3, nl=3, ns=3, prob=True, ens=True),  # the FIRST lead time (file a) / first location (file b) / first time (file c) is missing
     "mixed": dict(nt=3, nl=3, ns=3, prob=True, ens=True),      # file b has only obs and fcst: probabilistic fields exist in one input only
 }
+BIN_TYPES = ["below", "below=", "above", "above=", "within", "=within", "within=", "=within="]
 VARIANTS = [[], ["-r", "0,2,5"], ["-r", "0,2,5", "-b", "within"], ["-agg", "median"], ["-q", "0.1,0.9"], ["-r", "2", "-b", "below="],
             ["-r", "1,3", "-b", "=within="], ["-agg", "0.9", "-r", "0,2,5"], ["-agg", "max", "-r", "0,100,200", "-b", "within"],
             ["-agg", "range", "-r", "100", "-b", "above"]]
@@ -75,9 +77,10 @@ def make_files(tmp, seed):
     rng = random.Random(seed * 104729 + 19)
     for k, v in SHAPES.items():
         # all-missing slices: lead time 6 missing everywhere in file a, location 11 in file b
-        write_file(os.path.join(tmp, "%s_a.txt" % k), rng, blank=(1, 6) if k == "miss" else None, **v)
+        write_file(os.path.join(tmp, "%s_a.txt" % k), rng, blank=(1, 6) if k == "miss" else ((1, 0) if k == "missfirst" else None), **v)
         vb = dict(v, prob=False, ens=False) if k == "mixed" else v
-        write_file(os.path.join(tmp, "%s_b.txt" % k), rng, blank=(2, 11) if k == "miss" else None, **vb)
+        write_file(os.path.join(tmp, "%s_b.txt" % k), rng, blank=(2, 11) if k == "miss" else ((2, 10) if k == "missfirst" else None), **vb)
+        write_file(os.path.join(tmp, "%s_c.txt" % k), rng, blank=(0, 1325376000) if k == "missfirst" else None, **v)
 
 
 _W = {}
@@ -106,8 +109,9 @@ def _init(repo, tmp):
 
 
 def argv_of(tmp, job):
-    shape, name, ax, ty, extra = job
-    a = ["verif", os.path.join(tmp, "%s_a.txt" % shape), os.path.join(tmp, "%s_b.txt" % shape), "-m", name,
+    shape, name, ax, ty, extra = job[:5]
+    nf = job[5] if len(job) > 5 else 2
+    a = ["verif"] + [os.path.join(tmp, "%s_%s.txt" % (shape, c)) for c in "abc"[:nf]] + ["-m", name,
          "-f", os.path.join(tmp, "o_%d.%s" % (os.getpid(), "png" if ty not in ("text", "csv") else "txt"))]
     if ax:
         a += ["-x", ax]
@@ -166,6 +170,11 @@ def _explore(out, tier, seed, facts, replay, tmp):
     make_files(tmp, seed)
     ms, os_ = all_names()
     names = ms + [o for o in os_ if o not in ms]
+    import verif.aggregator
+    agg_names = sorted(set(a.name() for a in verif.aggregator.get_all())) + ["0", "0.5", "1"]
+    # every bin type with one threshold and with three; every aggregator name (class names and numbers)
+    bin_variants = [("-r", r, "-b", b) for b in BIN_TYPES for r in ("2", "0,2,5")]
+    agg_variants = [("-agg", a) for a in agg_names]
     rng = random.Random(seed * 31 + 19)
     jobs = set()
     broken = bool(out.broken) or not facts.get("build_ok")
@@ -206,11 +215,34 @@ def _explore(out, tier, seed, facts, replay, tmp):
             for v in VARIANTS:
                 for ty in ("text", "plot"):
                     jobs.add(("full", n, ax, ty, tuple(v)))
+    # every (name, axis) on the datasets with all-missing slices (in the middle; at the start) and with a single threshold
+    for n in names:
+        for ax in AXES:
+            jobs.add(("miss", n, ax, rng.choice(["plot", "text"]), ()))
+            jobs.add(("missfirst", n, ax, rng.choice(["plot", "text"]), (), rng.choice([1, 2, 3])))
+            jobs.add(("full", n, ax, rng.choice(["plot", "text", "csv"]), ("-r", "2")))
+    # every name with every bin type (one and three thresholds), every aggregator name, and one / three input files
+    for n in names:
+        for v in bin_variants:
+            jobs.add(("full", n, None, rng.choice(["plot", "text", "csv"]), v))
+        for v in agg_variants:
+            jobs.add(("full", n, None, rng.choice(["plot", "text", "csv"]), v + (("-r", "2") if rng.random() < 0.5 else ())))
+        for ty in TYPES:
+            for nf in (1, 3):
+                jobs.add((rng.choice(["full", "miss", "oneloc"]), n, None, ty, (), nf))
+    if tier == "thorough" or broken:
+        for n in names:
+            for ty in TYPES:
+                for v in bin_variants + agg_variants:
+                    jobs.add(("full", n, None, ty, v))
+                for nf in (1, 3):
+                    for s in SHAPES:
+                        jobs.add((s, n, None, ty, (), nf))
     # inputs with different columns: every name at least once on the mixed dataset (cheap text output)
     for n in names:
         jobs.add(("mixed", n, None, "text", ()))
         jobs.add(("mixed", n, None, "plot", ()))
-    jobs = sorted(jobs, key=lambda j: (j[0], j[1], j[2] or "", j[3], j[4]))
+    jobs = sorted(jobs, key=lambda j: (j[0], j[1], j[2] or "", j[3], j[4], j[5:]))
     rng.shuffle(jobs)
     counts = {"ok": 0, "exit": 0, "exception": 0, "silent-exit": 0}
     by_type = {t: 0 for t in TYPES}
@@ -221,20 +253,23 @@ def _explore(out, tier, seed, facts, replay, tmp):
         for job, st, info, dropped in pool.imap_unordered(work, jobs, chunksize=16):
             counts[st] += 1
             by_type[job[3]] += 1
-            if job[2] is not None and st in ("ok", "exit") and job[4] == () and job[0] == "full":
+            if len(job) > 5:
+                pass
+            elif job[2] is not None and st in ("ok", "exit") and job[4] == () and job[0] == "full":
                 observed.setdefault((job[1], job[2]), set()).add(dropped)
-            if job[2] is None and job[4] == () and job[0] == "full" and st in ("ok", "exit"):
+            if len(job) == 5 and job[2] is None and job[4] == () and job[0] == "full" and st in ("ok", "exit"):
                 dispatched[(job[1], job[3])] = (st, info)
             if st in ("exception", "silent-exit"):
                 key = info.split(":")[0] + ":" + info.split(":")[1] if st == "exception" else "silent-exit:" + job[1]
                 exceptions.setdefault(key, []).append((job, info))
     for key, lst in sorted(exceptions.items()):
-        job, info = sorted(lst, key=lambda p: (len(p[0][4]), p[0][0] != "full", p[0][2] is not None, p[0][3] != "plot"))[0]
+        job, info = sorted(lst, key=lambda p: (len(p[0][4]), p[0][0] != "full", p[0][2] is not None, p[0][3] != "plot", len(p[0])))[0]
         argv = argv_of("<dir>", job)
-        out.violation(key, "verif %s ends in an unhandled exception (%s); %d combination(s) of this run fail at this site" % (
-            " ".join(argv[3:]), info, len(lst)),
+        nf_ = job[5] if len(job) > 5 else 2
+        out.violation(key, "verif <%d generated file(s), dataset %s> %s ends in an unhandled exception (%s); %d combination(s) of this run fail at this site" % (
+            nf_, job[0], " ".join(argv[1 + nf_:]), info, len(lst)),
             {"argv": argv, "dataset": job[0], "dataset_generator": dict(SHAPES[job[0]], seed=seed),
-             "other_failing_combinations": [" ".join(argv_of("<dir>", j)[3:]) for j, _ in lst[1:6]]})
+             "other_failing_combinations": [" ".join(argv_of("<dir>", j)[1:]) for j, _ in lst[1:6]]})
     # ---- translation validation of the gate: model decision vs the driver's warnings -------------------
     pairs = sorted(observed)
     agree = 0
@@ -294,10 +329,10 @@ def _explore(out, tier, seed, facts, replay, tmp):
         "evaluations": len(jobs),
         "distinct_nontrivial": counts["ok"] + counts["exit"],
         "rule": "each evaluation is one verif.driver.run(argv) on two generated text files; shapes %s; names = %d metric and output class names; "
-                "-x in %d values; 8 output types; variants %s. quick = stratified sample covering every (name,type), (name,axis), (shape,type,axis); "
+                "-x in %d values; 8 output types; variants %s; every name x 8 bin types x (one, three thresholds); every name x every aggregator name (incl. numbers 0, 0.5, 1); every (name, type) with one and with three input files. quick = stratified sample covering every (name,type), (name,axis), (shape,type,axis); "
                 "thorough (and any run with a broken proof or tie) = full product. distinct_nontrivial = runs that reached an outcome "
                 "(output or error exit)" % (sorted(SHAPES), len(names), len(AXES), [" ".join(v) for v in VARIANTS[1:]]),
-        "samples": [" ".join(argv_of("<dir>", j)[3:]) + "  [dataset %s]" % j[0] for j in jobs[:4]],
+        "samples": [" ".join(argv_of("<dir>", j)[1:]) + "  [dataset %s]" % j[0] for j in jobs[:4]],
         "outcomes": counts, "runs_by_output_type": by_type,
         "exhaustive": tier == "thorough",
         "gate_pairs_compared": len(pairs), "gate_pairs_agreeing": agree,
